@@ -105,8 +105,10 @@ theorem createMulti_failed_is_identity (s : State) (nss : List Name) (orig : Nam
     (hd : DistinctLower nss) : AtomicAt (createMulti nss orig i) s := by
   unfold createMulti
   apply atomicAt_getS_then
-  apply atomicAt_ite; · intro _; exact atomicAt_raise _ _
-  intro hA
+  cases hA : requireClassAll s i.cls nss with
+  | some e => exact atomicAt_raise _ _
+  | none =>
+  simp only
   apply atomicAt_getNs_then; intro ro _
   cases findClass ro i.cls with
   | none => exact atomicAt_raise _ _
@@ -117,11 +119,11 @@ theorem createMulti_failed_is_identity (s : State) (nss : List Name) (orig : Nam
     intro hB
     have hw : WritesOk (fun n => instCreateR (mkInstRec n cc.name keys i.cls i.props)) nss s := by
       intro n hn
-      simp only [List.any_eq_true, not_exists, not_and] at hA hB
-      have h1 := hA n hn
+      simp only [List.any_eq_true, not_exists, not_and] at hB
+      obtain ⟨r0, hr0⟩ := requireClassAll_none s i.cls nss hA n hn
       have h2 := hB n hn
       cases hf : findNs s n with
-      | none => rw [hf] at h1; simp at h1
+      | none => rw [hf] at hr0; cases hr0
       | some r =>
         rw [hf] at h2
         simp only [Bool.not_eq_true] at h2
@@ -173,8 +175,10 @@ theorem modifyMulti_failed_is_identity (s : State) (nss : List Name) (rec : Inst
     AtomicAt (modifyMulti nss rec) s := by
   unfold modifyMulti
   apply atomicAt_getS_then
-  apply atomicAt_ite; · intro _; exact atomicAt_raise _ _
-  intro _
+  cases requireClassAll s rec.cls nss with
+  | some e => exact atomicAt_raise _ _
+  | none =>
+  simp only
   apply atomicAt_ite; · intro _; exact atomicAt_raise _ _
   intro hB
   have hw : ∀ n ∈ nss, ∃ r, findNs s n = some r ∧
